@@ -23,6 +23,12 @@ class HarnessError(Exception):
     """Anything that is wrong with the machinery, not with mosromgr (exit 2)."""
 
 
+class LibraryFault(Exception):
+    """mosromgr handed the machinery something no property allows (e.g. a serialisation that is not
+    well-formed XML) at a place where the check was only preparing its next step: reported by the
+    runner as a violation of the property under test (never raised on the unchanged tree)."""
+
+
 def _bootstrap():
     # the repository first, so that edits to the working tree are what runs
     if REPO_DIR in sys.path:
